@@ -1,4 +1,6 @@
 import Oas3Model.Model.Server
+import Oas3Model.Props.C04
+import Oas3Model.Proofs.Interop
 namespace Oas3.Props.C05
 open Oas3.Server Oas3.Status
 
@@ -16,5 +18,68 @@ theorem status_of_exact : ∀ t ∈ Oas3.Gen.Status.tokens, ∀ c, code (.named 
 
 /-- known defect, reproduced by the model: a `3XX` variant is answered with 500. -/
 theorem cex_redirection_500 : httpStatus (.named "Redirection3XX".toList) = 500 := by decide +kernel
+
+/-! ## status of the `IntoResponse` arms, routing -/
+open Oas3.Resp Oas3.Path
+
+/-- the property's reference for an exact key: exactly that code -/
+theorem statusOkFor_exact {k : List Char} {c : Nat} (h : exactKey k = some c) (n : Nat) :
+    statusOkFor k n = (n == c) :=
+  Oas3.Proofs.Interop.statusOkFor_exact h n
+
+/-- …for a range key `jXX`: the hundred `j` -/
+theorem statusOkFor_range {k : List Char} {j : Nat} (h : rangeKey k = some j) (n : Nat) :
+    statusOkFor k n = (decide (j * 100 ≤ n) && decide (n < (j + 1) * 100)) :=
+  Oas3.Proofs.Interop.statusOkFor_range h n
+
+/-- …for `default`: any status 100..599 -/
+theorem statusOkFor_default (n : Nat) : statusOkFor "default".toList n = (decide (100 ≤ n) && decide (n ≤ 599)) :=
+  Oas3.Proofs.Interop.statusOkFor_default n
+
+/-- every `IntoResponse` arm is built from a variant of the response enum: its name, the status
+`HttpStatusCode` emits for its token, and `axum::Json` iff the variant carries a payload. -/
+theorem arms_spec (rs : List (List Char × List MediaDecl)) :
+    ∀ a ∈ armsOf rs, ∃ v ∈ variantsOf rs,
+      a.variant = v.name ∧ a.status = httpStatus v.tok ∧ a.json = v.schemaType.isSome :=
+  Oas3.Proofs.Interop.arms_spec rs
+
+/-- …and every variant has its arm (same length, same order). -/
+theorem arms_complete (rs : List (List Char × List MediaDecl)) :
+    (armsOf rs).map (·.variant) = (variantsOf rs).map (·.name) := by
+  simp [armsOf, List.map_map, Function.comp_def]
+
+/-- an arm whose variant is declared under an exact table token `t` with code `c` answers with status `c`. -/
+theorem arms_exact_status (rs : List (List Char × List MediaDecl)) :
+    ∀ v ∈ variantsOf rs, ∀ t ∈ Oas3.Gen.Status.tokens, ∀ c, v.tok = .named t → code (.named t) = some c →
+      ∃ a ∈ armsOf rs, a.variant = v.name ∧ a.status = c ∧ a.json = v.schemaType.isSome := by
+  intro v hv t ht c hvt hc
+  refine ⟨_, Oas3.Proofs.Interop.arms_of_variant rs v hv, rfl, ?_, rfl⟩
+  show httpStatus v.tok = c
+  rw [hvt]; exact Oas3.Props.C04.exact_status t ht c hc
+
+/-- the status sent for ANY canonical exact key `k` (table token or numeric fallback) is acceptable for `k`. -/
+theorem exact_key_status_ok {k : List Char} {c : Nat} (h : exactKey k = some c) :
+    httpStatus (fromStr k) = c ∧ statusOkFor k (httpStatus (fromStr k)) = true := by
+  have hs := Oas3.Proofs.Interop.httpStatus_of_exactKey h
+  exact ⟨hs, by rw [statusOkFor_exact h, hs]; simp⟩
+
+/-- on the eight methods of a path item, different methods get different routing functions
+(so two operations on one path never land in the same method router). -/
+theorem routerFn_injective : ∀ a ∈ oasMethods, ∀ b ∈ oasMethods, a ≠ b → routerFn a ≠ routerFn b :=
+  fun a ha b hb hne e => hne (method_arms_injective a ha b hb e)
+
+/-- route entries are keyed by (pattern shape, routing function): two operations on the same path with
+different OpenAPI methods are different entries. -/
+theorem route_key_unique (p : Parsed) : ∀ a ∈ oasMethods, ∀ b ∈ oasMethods, a ≠ b →
+    (shape (axumPath p), routerFn a) ≠ (shape (axumPath p), routerFn b) := by
+  intro a ha b hb hne e
+  exact routerFn_injective a ha b hb hne (Prod.mk.inj e).2
+
+/-- the routing functions are the eight axum method routers, each used exactly once -/
+theorem routerFn_range : oasMethods.map routerFn =
+    ["get", "put", "post", "delete", "options", "head", "patch", "trace"].map String.toList := by decide +kernel
+
+/-- method names are matched case-insensitively (`to_uppercase`) -/
+example : routerFn "post".toList = "post".toList ∧ routerFn "Delete".toList = "delete".toList := by decide +kernel
 
 end Oas3.Props.C05
